@@ -67,8 +67,9 @@ func c02Check(c *fw.Ctx, toks []vtok, origin string) {
 		}
 		ae, ok := err.(*cerr.ApplicationError)
 		if !ok || ae == nil || ae.Code == "" {
-			c.Violation("rejection-without-error-code", "%sParseString(%q) fails with %v, which carries no error code", origin, text, err)
+			c.Violation("rejection-without-error-code", "%sParseString(%q) fails with %v, which carries no error code (error objects returned earlier were overwritten by the caller; a shared error object would show that)", origin, text, err)
 		}
+		errStrS(err) // the caller owns the error it was handed and overwrites it
 	case "unspecified":
 		if err == nil {
 			if msg := sameProgram(p.ResultTokens(), postorderOf(tree)); msg != "" {
